@@ -19,6 +19,7 @@ import (
 	"net/textproto"
 	"net/url"
 	"os"
+	"runtime"
 	"sort"
 	"strconv"
 	"strings"
@@ -551,6 +552,11 @@ func c14EffRead(want, total int) int {
 
 func c14Run(c c14Case, r *vp.Rec) error {
 	n := len(c.Reqs)
+	if c.Aim == "abandoned-write" {
+		// What the server recycles goes through sync.Pool, whose reuse is per P: on one P
+		// the next taker gets what was just put back, whatever the machine load is.
+		defer runtime.GOMAXPROCS(runtime.GOMAXPROCS(1))
+	}
 	var mu sync.Mutex
 	srvObs := make([]c14SrvObs, n)
 	cliObs := make([]c14CliObs, n)
